@@ -208,7 +208,9 @@ func (s *reportSim) RunCycle() int {
 
 			s.Report(Report{Type: WarriorTaskPop, Cycle: int(s.cycleCount), WarriorIndex: i, Address: pc})
 
+			snap := s.verifBefore(pc, s.warriors[i])
 			s.exec(pc, s.warriors[i])
+			s.verifAfter(snap, pc, s.warriors[i])
 			if s.warriors[i].pq.Len() == 0 {
 				s.Report(Report{Type: WarriorTerminate, Cycle: int(s.cycleCount), WarriorIndex: i, Address: pc})
 				s.warriors[i].state = WarriorDead
